@@ -59,4 +59,4 @@ reg(C16Check(
     modelled=["manager/manager.go createConn/monitor/Remove are exercised (manager family: every dialled connection closed after Remove) but not modelled", "connection/connection.go: Manager.Connection, Manager.dial, connection.done, Manager.remove (NewManager/NewManagerCustom argument checks are not modelled)"],
 ),
     level_text="Theorems in coq/Props/C16.v state every clause of the property over a labelled transition system whose steps are the critical sections and channel operations of connection/connection.go, for every reachable state, i.e. every interleaving of any number of requester, dialer and releasing goroutines over any number of addresses and every choice of dial outcomes (success, error, context cancelled, unknown dialer): one attempt and one Dial call in flight per address, joiners share the attempt's result, no handle closed while a holder (returned or still joining) has not released, closed at most once and exactly when the last holder releases, closed entries forgotten and the next request dials afresh, second release (sequential or concurrent with the first, wherever scheduled) and release after failure are identities on the state, Manager.remove never takes its nil-dereferencing branch, no waiter is stuck; and liveness over fair runs (Conn/ConnLive.v): under weak fairness of requester and dialer and the hypothesis that every started Dial completes or is cancelled, every request returns with the outcome of the attempt it joined (all joiners the same), an entered done function runs to its end and the last one closes the handle and deletes the entry, a later request gets a fresh Dial call; the return statement is refuted for the dead-entry mechanism of seeded change seed_va. The model is tied to the Go code by forced-schedule runs: a barrier scheduler plays event scripts (request / pass the join point / let the scripted Dial succeed, succeed with a handle whose Close parks, or fail / pass the failure point / release / request held inside its critical section (schedule point connection:locked) / call the same done function from one more goroutine while a call is in flight / cancel / let a parked Close return / drive a handle to TRANSIENT_FAILURE; Dials that fail with several error kinds or ignore their context; address strings incl. the empty one) against the real Manager with real lazy grpc.ClientConns, waits for quiescence by reading goroutine states, and Coq replays each script through the LTS (all states visited are proved reachable) and through an independent executable specification applied to the implementation's own observations; two free-running families are checked on their observations alone (stress: goroutines cycling Connection()/done() never see a held connection Shutdown, nothing left open; manager: a real manager.Manager with credentials / dial / Subscribe faults leaves every dialled connection closed after Remove); property tags (2 dial where forbidden / missing, 3 outcome not shared, 4 closed while held, 5 not closed at last release, 6 panic or hang) mean a clause fails on the observations, progress-only deviations are correspondence (tag 1); two clauses (holder sees Shutdown, two Dial calls in flight for one address) are also checked on the observations alone.",
-    level_note="Trusted: Coq kernel + vm_compute, the hand-written LTS (validated only on the explored scripts: all applicable scripts of 6 events over 3 threads / 1 address incl. handles whose Close is held open by the script, 1500 random walks over 5 threads / 3 addresses), the Go harness (scheduler, projection). Interleavings inside a critical section and the Go memory model are not modelled; the harness serialises at hook points, so windows without a hook (between the dialer's Unlock and close(ready) on failure) are covered by the theorems only.")
+    level_note="Trusted: Coq kernel + vm_compute, the hand-written LTS (validated only on the explored scripts: all applicable scripts of 6 events over 3 threads / 1 address incl. handles whose Close is held open by the script, 1500 random walks over 5 threads / 3 addresses), the Go harness (scheduler, projection). Interleavings inside a critical section and the Go memory model are not modelled; the harness serialises at hook points, so windows without a hook (between the dialer's Unlock and close(ready) on failure) are covered by the theorems only. Since round 7 every clause of K_P has a declarative statement with a soundness theorem over recorded runs (C16_kp_*_sound); the no-leak clause uses an over-approximated entitlement.")
